@@ -56,6 +56,8 @@ def annotate(script_lines, impl_blocks):
                     out.append("part %s %s" % (slot, "|".join(",".join(m) for m in msgs)))
         if t[0] == "connect" and len(t) > 3:
             line = " ".join(t[:3])          # `slow` (a Connecting phase) is invisible to the model
+        if t[0] == "disconnect" and len(t) > 2:
+            line = " ".join(t[:2])          # `disconnect c slow`: the connection is lost through a Connecting (retry) frame
         out.append(line)
     return out
 
